@@ -236,4 +236,172 @@ theorem torus_dist (A D : P2) (w h : Int) (hw : 0 < w) (hh : 0 < h) :
     have := lift_ge x y w h hx0 hx1 hy0 hy1 (j1 + k) (j2 + l)
     omega
 
+/-! ### vectors -/
+
+/-- minimal form: the median component is zero -/
+def Minimal (v : V3) : Prop := max (min v.x v.y) (min (max v.x v.y) v.z) = 0
+
+theorem minimise_spec (v : V3) :
+    proj (minimiseXyz v) = proj v ∧ Minimal (minimiseXyz v) ∧
+    absSum (minimiseXyz v) = hexLen (proj v).1 (proj v).2 := by
+  simp only [minimiseXyz, proj, Minimal, absSum, hexLen]
+  refine ⟨by ext <;> simp <;> omega, by omega, by omega⟩
+
+theorem randint_range (lo hi : Int) (t : Nat) (h : lo ≤ hi) :
+    lo ≤ randint lo hi t ∧ randint lo hi t ≤ hi := by
+  have h1 := Int.emod_nonneg (t : Int) (b := hi - lo + 1) (by omega)
+  have h2 := Int.emod_lt_of_pos (t : Int) (b := hi - lo + 1) (by omega)
+  simp only [randint]; omega
+
+/-- spiral counts: `r * m` lies between 0 and x -/
+theorem spiral_bound (x m : Int) (hm : 0 < m) (t : Nat) :
+    let ms := pyDiv (if x < 0 then x + m - 1 else x) m
+    let d := randint (min 0 ms) (max 0 ms) t * m
+    (0 ≤ x → 0 ≤ d ∧ d ≤ x) ∧ (x < 0 → x ≤ d ∧ d ≤ 0) ∧ ∃ r : Int, d = m * r := by
+  intro ms d
+  have hr := randint_range (min 0 ms) (max 0 ms) t (by omega)
+  generalize hrr : randint (min 0 ms) (max 0 ms) t = r at *
+  have hd : d = r * m := by simp only [d, hrr]
+  refine ⟨?_, ?_, r, by rw [hd, Int.mul_comm]⟩
+  · intro hx
+    have hms : ms = x / m := by
+      simp only [ms, pyDiv, show ¬ x < 0 by omega, if_false]
+      exact Int.fdiv_eq_ediv_of_nonneg _ (Int.le_of_lt hm)
+    have h1 : 0 ≤ x / m := Int.ediv_nonneg hx (Int.le_of_lt hm)
+    have h2 : x / m * m ≤ x := Int.ediv_mul_le x (Int.ne_of_gt hm)
+    have h3 : r * m ≤ x / m * m := Int.mul_le_mul_of_nonneg_right (by omega) (Int.le_of_lt hm)
+    have h4 : 0 ≤ r * m := Int.mul_nonneg (by omega) (Int.le_of_lt hm)
+    omega
+  · intro hx
+    have hms : ms = (x + m - 1) / m := by
+      simp only [ms, pyDiv, hx, if_true]
+      exact Int.fdiv_eq_ediv_of_nonneg _ (Int.le_of_lt hm)
+    have h0 := Int.emod_nonneg (x + m - 1) (Int.ne_of_gt hm)
+    have h0' := Int.emod_lt_of_pos (x + m - 1) hm
+    have h2 : (x + m - 1) / m * m = (x + m - 1) - (x + m - 1) % m := by
+      rw [Int.emod_def, Int.mul_comm]; omega
+    have h1 : (x + m - 1) / m ≤ 0 := by
+      have : (x + m - 1) / m < 1 := Int.ediv_lt_of_lt_mul hm (by omega)
+      omega
+    have h3 : (x + m - 1) / m * m ≤ r * m := Int.mul_le_mul_of_nonneg_right (by omega) (Int.le_of_lt hm)
+    have h4 : r * m ≤ 0 := Int.mul_nonpos_of_nonpos_of_nonneg (by omega) (Int.le_of_lt hm)
+    omega
+
+theorem spiral_ok (v : V3) (w h : Int) (hw : 0 < w) (hh : 0 < h) (hv : Minimal v) (t : Nat) :
+    absSum (spiral v w h t) = absSum v ∧
+    ∃ i j : Int, (proj (spiral v w h t)).1 = (proj v).1 + w * i ∧
+      (proj (spiral v w h t)).2 = (proj v).2 + h * j := by
+  simp only [spiral]
+  split
+  · have := spiral_bound v.x h hh t
+    simp only at this
+    obtain ⟨b1, b2, r, hr⟩ := this
+    generalize randint _ _ t * h = d at *
+    simp only [Minimal] at hv
+    refine ⟨?_, 0, r, ?_, ?_⟩
+    · simp only [absSum]; omega
+    · simp only [proj]; omega
+    · simp only [proj]; omega
+  · split
+    · have := spiral_bound v.y w hw t
+      simp only at this
+      obtain ⟨b1, b2, r, hr⟩ := this
+      generalize randint _ _ t * w = d at *
+      simp only [Minimal] at hv
+      refine ⟨?_, r, 0, ?_, ?_⟩
+      · simp only [absSum]; omega
+      · simp only [proj]; omega
+      · simp only [proj]; omega
+    · exact ⟨rfl, 0, 0, by simp, by simp⟩
+
+theorem minByKey4 (a0 a1 a2 a3 : Int × V3) :
+    let b := minByKey a0 [a1, a2, a3]
+    (b = a0 ∨ b = a1 ∨ b = a2 ∨ b = a3) ∧ b.1 ≤ a0.1 ∧ b.1 ≤ a1.1 ∧ b.1 ≤ a2.1 ∧ b.1 ≤ a3.1 := by
+  simp only [minByKey, List.foldl]
+  repeat' split
+  all_goals (refine ⟨by simp, ?_, ?_, ?_, ?_⟩ <;> omega)
+
+theorem key_le (a b : Int) (den ka kb : Nat) (hka : ka < den) (hkb : kb < den)
+    (h : a * den + ka ≤ b * den + kb) : a ≤ b := by
+  by_cases hab : a ≤ b
+  · exact hab
+  · exfalso
+    have h1 : (b + 1) * (den : Int) ≤ a * den := Int.mul_le_mul_of_nonneg_right (by omega) (by omega)
+    rw [Int.add_mul] at h1
+    omega
+
+theorem choose_ok (x y w h : Int) (hx : 0 ≤ x) (hxw : x < w) (hy : 0 ≤ y) (hyh : y < h)
+    (den k0 k1 k2 k3 : Nat) (h0 : k0 < den) (h1 : k1 < den) (h2 : k2 < den) (h3 : k3 < den) :
+    let key (a : Int × V3) (k : Nat) : Int × V3 := (a.1 * den + k, a.2)
+    let best := minByKey (key (max x y, ⟨x, y, 0⟩) k0)
+      [key (w - x + y, ⟨-(w - x), y, 0⟩) k1, key (x + h - y, ⟨x, -(h - y), 0⟩) k2,
+       key (max (w - x) (h - y), ⟨-(w - x), -(h - y), 0⟩) k3]
+    ∃ e f : Int, best.2.x = x - w * e ∧ best.2.y = y - h * f ∧ best.2.z = 0 ∧
+      hexLen (x - w * e) (y - h * f) = torusF x y w h := by
+  intro key best
+  obtain ⟨hb, l0, l1, l2, l3⟩ := minByKey4 (key (max x y, ⟨x, y, 0⟩) k0)
+      (key (w - x + y, ⟨-(w - x), y, 0⟩) k1) (key (x + h - y, ⟨x, -(h - y), 0⟩) k2)
+       (key (max (w - x) (h - y), ⟨-(w - x), -(h - y), 0⟩) k3)
+  rw [torusF_eq]
+  rcases hb with hb | hb | hb | hb
+  · simp only [best, hb, key] at l0 l1 l2 l3 ⊢
+    have := key_le _ _ _ _ _ h0 h1 l1
+    have := key_le _ _ _ _ _ h0 h2 l2
+    have := key_le _ _ _ _ _ h0 h3 l3
+    exact ⟨0, 0, by simp, by simp, trivial, by simp only [hexLen]; omega⟩
+  · simp only [best, hb, key] at l0 l1 l2 l3 ⊢
+    have := key_le _ _ _ _ _ h1 h0 l0
+    have := key_le _ _ _ _ _ h1 h2 l2
+    have := key_le _ _ _ _ _ h1 h3 l3
+    exact ⟨1, 0, by simp; omega, by simp, trivial, by simp only [hexLen]; omega⟩
+  · simp only [best, hb, key] at l0 l1 l2 l3 ⊢
+    have := key_le _ _ _ _ _ h2 h0 l0
+    have := key_le _ _ _ _ _ h2 h1 l1
+    have := key_le _ _ _ _ _ h2 h3 l3
+    exact ⟨0, 1, by simp, by simp; omega, trivial, by simp only [hexLen]; omega⟩
+  · simp only [best, hb, key] at l0 l1 l2 l3 ⊢
+    have := key_le _ _ _ _ _ h3 h0 l0
+    have := key_le _ _ _ _ _ h3 h1 l1
+    have := key_le _ _ _ _ _ h3 h2 l2
+    exact ⟨1, 1, by simp; omega, by simp; omega, trivial, by simp only [hexLen]; omega⟩
+
+theorem torusPathCore_ok (s d : V3) (w h : Int) (hw : 0 < w) (hh : 0 < h) (den k0 k1 k2 k3 t : Nat)
+    (h0 : k0 < den) (h1 : k1 < den) (h2 : k2 < den) (h3 : k3 < den) :
+    let v := torusPathCore s d w h den k0 k1 k2 k3 t
+    absSum v = torusLenCore s d w h ∧
+    ((proj s).1 + (proj v).1 - (proj d).1) % w = 0 ∧ ((proj s).2 + (proj v).2 - (proj d).2) % h = 0 := by
+  intro v
+  rw [torusLenCore_eq s d w h hw hh]
+  have e1 : d.x - d.z - (s.x - s.z) = (proj d).1 - (proj s).1 := by simp only [proj]
+  have e2 : d.y - d.z - (s.y - s.z) = (proj d).2 - (proj s).2 := by simp only [proj]
+  have hx0 := Int.emod_nonneg ((proj d).1 - (proj s).1) (Int.ne_of_gt hw)
+  have hx1 := Int.emod_lt_of_pos ((proj d).1 - (proj s).1) hw
+  have hy0 := Int.emod_nonneg ((proj d).2 - (proj s).2) (Int.ne_of_gt hh)
+  have hy1 := Int.emod_lt_of_pos ((proj d).2 - (proj s).2) hh
+  have hxd := Int.emod_def ((proj d).1 - (proj s).1) w
+  have hyd := Int.emod_def ((proj d).2 - (proj s).2) h
+  have hv : v = torusPathCore s d w h den k0 k1 k2 k3 t := rfl
+  simp only [torusPathCore, approaches, pyMod, Int.fmod_eq_emod_of_nonneg _ (Int.le_of_lt hw),
+    Int.fmod_eq_emod_of_nonneg _ (Int.le_of_lt hh), e1, e2] at hv
+  generalize ((proj d).1 - (proj s).1) % w = x at *
+  generalize ((proj d).2 - (proj s).2) % h = y at *
+  obtain ⟨e, f, bx, by', bz, hl⟩ := choose_ok x y w h hx0 hx1 hy0 hy1 den k0 k1 k2 k3 h0 h1 h2 h3
+  simp only at bx by' bz hl
+  generalize minByKey _ _ = best at *
+  obtain ⟨mp, mm, ms⟩ := minimise_spec best.2
+  obtain ⟨sa, i, j, sx, sy⟩ := spiral_ok (minimiseXyz best.2) w h hw hh mm t
+  rw [← hv] at sa sx sy
+  have pb : proj best.2 = (x - w * e, y - h * f) := by
+    simp only [proj, bx, by', bz]; ext <;> simp
+  rw [mp, pb] at sx sy
+  rw [pb] at ms
+  simp only at sx sy ms
+  refine ⟨by rw [sa, ms, hl], ?_, ?_⟩
+  · have : (proj s).1 + (proj v).1 - (proj d).1 = w * (i - e - ((proj d).1 - (proj s).1) / w) := by
+      rw [Int.mul_sub, Int.mul_sub]; omega
+    rw [this]; exact Int.mul_emod_right _ _
+  · have : (proj s).2 + (proj v).2 - (proj d).2 = h * (j - f - ((proj d).2 - (proj s).2) / h) := by
+      rw [Int.mul_sub, Int.mul_sub]; omega
+    rw [this]; exact Int.mul_emod_right _ _
+
 end Rig.C11
